@@ -37,6 +37,16 @@ def script(sc):
                 if sc.unmerged():
                     sc.resolve_conflicts(how="both"); sc.g("reset", "-q"); sc.g("stash", "drop", "-q")
                 sc.ops.append("stash:roundtrip")
+        if rng.random() < 0.35 and len(sc.files) > 1:
+            # a person edits two files in a row (one of them also touched by an agent before), then an agent edits the second one:
+            # whatever checkpoints and read-only commands fall in between, the person's lines stay the person's
+            fa, fb = rng.sample(sc.files, 2)
+            sc.do_edit(author=rng.choice(sc.sessions), f=fa, kinds=["ins"])
+            sc.do_edit(author="human", f=fb, kinds=["ins"])
+            sc.do_edit(author="human", f=fa, kinds=["ins"])
+            sc.do_edit(author="human", f=fb, kinds=["ins"])
+            sc.do_edit(author=rng.choice(sc.sessions), f=fb, kinds=["ins"])
+            sc.ops.append("two-file-person-then-agent")
         kind = rng.choice(["all", "all", "files", "hunks"])
         if kind == "files":
             sc.op_partial_commit()
